@@ -67,7 +67,7 @@ RECURSIVE ParLens(_, _, _, _, _, _)
 OutLens(Split, step, inLen, k) ==
     IF k < 0 THEN {ERR}
     ELSE CASE step.k = "novelty"  -> {k}
-      [] step.k \in {"elitism", "identity", "mutation"} -> {MinOf(inLen, k)}
+      [] step.k \in {"elitism", "identity", "evaluate", "mutation"} -> {MinOf(inLen, k)}
       [] step.k \in {"tournament"} -> IF k = 0 THEN {0} ELSE IF inLen >= 1 THEN {k} ELSE {ERR}
       [] step.k = "lexicase"   -> IF inLen >= k THEN {k} ELSE {ERR}
       [] step.k = "crossover"  -> IF k = 0 THEN {0} ELSE IF inLen >= 2 /\ k <= inLen THEN {k}
